@@ -133,12 +133,24 @@ def compositions(n, kmax):
     return out
 
 
-def mk_reshape(pairs, kmax, tag):
+def with_zero_chunks(n, kmax):
+    """compositions of n into <= kmax chunks of which at least one is a ZERO-size chunk (as left by boolean indexing + compute_chunk_sizes)"""
+    out = []
+    for c in compositions(n, kmax - 1):
+        if 0 in c:
+            continue
+        for pos in range(len(c) + 1):
+            out.append(c[:pos] + (0,) + c[pos:])
+    return out
+
+
+def mk_reshape(pairs, kmax, tag, zeros=False):
     def setup(e):
         ins, outs = pairs[e.choice("pair", len(pairs))]
         chunks = []
+        zaxis = e.choice("zero_axis", len(ins)) if zeros else None
         for a, d in enumerate(ins):
-            comps = compositions(d, kmax)
+            comps = with_zero_chunks(d, kmax) if (zeros and a == zaxis and d > 0) else compositions(d, kmax)
             chunks.append(comps[e.choice(f"chunking{a}", len(comps))])
         return ins, outs, tuple(chunks)
 
@@ -279,6 +291,6 @@ def mk_structural(kmax, tag):
 
 def obligations(tier):
     if tier == "quick":
-        return [mk_contract(n, (1, 2, 3, 4)) for n in (1, 2, 3)] + [mk_expand(n, (1, 2, 3)) for n in (1, 2, 3)] + [mk_reshape(PAIRS_Q, 2, "12 pairs,<=2 chunks/axis"), mk_structural(2, "5 shapes,<=2 chunks/axis")]
+        return [mk_contract(n, (1, 2, 3, 4)) for n in (1, 2, 3)] + [mk_expand(n, (1, 2, 3)) for n in (1, 2, 3)] + [mk_reshape(PAIRS_Q, 2, "12 pairs,<=2 chunks/axis"), mk_reshape(PAIRS_Q, 3, "12 pairs,one axis with a zero-size chunk among <=3", zeros=True), mk_structural(2, "5 shapes,<=2 chunks/axis")]
     return ([mk_contract(n, (1, 2, 3, 4, 5, 6)) for n in (1, 2, 3, 4)] + [mk_expand(n, (1, 2, 3, 4, 5)) for n in (1, 2, 3, 4)]
-            + [mk_reshape(PAIRS_T, 3, "24 pairs,<=3 chunks/axis"), mk_structural(3, "5 shapes,<=3 chunks/axis")])
+            + [mk_reshape(PAIRS_T, 3, "24 pairs,<=3 chunks/axis"), mk_reshape(PAIRS_T, 3, "24 pairs,one axis with a zero-size chunk among <=3", zeros=True), mk_structural(3, "5 shapes,<=3 chunks/axis")])
